@@ -7,6 +7,7 @@ require (
 	github.com/miekg/dns v1.1.72
 	github.com/mycoria/crop v0.3.1
 	github.com/mycoria/mycoria v0.0.0
+	gopkg.in/yaml.v3 v3.0.1
 )
 
 require (
@@ -30,7 +31,6 @@ require (
 	golang.org/x/text v0.40.0 // indirect
 	golang.org/x/time v0.15.0 // indirect
 	golang.zx2c4.com/wireguard v0.0.0-20260522210424-ecfc5a8d5446 // indirect
-	gopkg.in/yaml.v3 v3.0.1 // indirect
 	gvisor.dev/gvisor v0.0.0-20260709014902-8ed0c00a3f90 // indirect
 )
 
